@@ -150,6 +150,30 @@ def fold_lists(rng, w, n, sg):
     return out
 
 
+def long_folds(rng, w, n, sg):
+    """LONG iterators (257 ... 1000 elements) whose left fold never leaves the range: many elements with saturated low
+    digits (a per-column accumulator of digit or double-digit width overflows long before the total does), signed
+    lists alternating x, -x, and products of many ones with a few twos"""
+    W = w * n
+    M = 1 << W
+    B = 1 << w
+    lim = (M >> 1) if sg else M
+    out = []
+    for L in (rng.choice([257, 258, 300]), rng.choice([513, 520, 1000])):
+        c = max(1, min(n, (W - 11) // w)) if W > 11 else 0
+        e = min((1 << (w * c)) - 1, (lim - 1) // L) if c else (lim - 1) // L
+        out.append(("sum", [e] * L))
+        out.append(("sum", [rng.choice([e, e // 2, 0, e - 1 if e else 0]) for _ in range(L)]))
+        if sg:
+            x = rng.randrange(1, lim)
+            out.append(("sum", [x if i % 2 == 0 else (M - x) for i in range(L)]))
+        twos = rng.randrange(0, W - 1 if sg else W)
+        xs = [1] * (L - twos) + [2] * twos
+        rng.shuffle(xs)
+        out.append(("product", xs))
+    return out
+
+
 def fold_reqs(s, cfg, mode, fam, xs, tag):
     lst = ",".join(hx(x) for x in xs) or "-"
     for op in ((fam, fam + "_ref")):
@@ -350,6 +374,9 @@ def gen(rng, tier):
                     fl = fold_lists(rng, w, n, sg)
                     for fam, xs in (fl if rep == 0 else rng.sample(fl, 2)):
                         yield from fold_reqs(s, cfg, mode, fam, xs, "fold-boundary")
+                    if rep == 0:
+                        for fam, xs in long_folds(rng, w, n, sg):
+                            yield from fold_reqs(s, cfg, mode, fam, xs, "fold-long")
                     yield f"default {s}{cfg} {mode}", "default"
                     t, a, b = pair(rng, w, n)
                     for op in ("cmp_partial_cmp", "cmp_ord_cmp", "cmp_cmp_inh", "cmp_eq", "cmp_eq_inh", "cmp_ne", "cmp_lt", "cmp_le", "cmp_gt", "cmp_ge"):
